@@ -69,6 +69,22 @@ func rulesScanBuf(c *Ctx, r *Report, rel string) {
 					}
 				}
 			}
+			// the initial buffer is nil or made here: a buffer shared between scanners (a package variable, a field, a
+			// parameter) lets two readers that are alive at once scan inside the same memory
+			for _, bc := range bufCalls {
+				fresh := false
+				switch b := bc.Call.Args[1].(type) {
+				case *ssa.Const:
+					fresh = b.IsNil()
+				case *ssa.MakeSlice:
+					fresh = true
+				case *ssa.Slice:
+					_, fresh = b.X.(*ssa.Alloc)
+				}
+				r.check(fresh, "SC-BUF", fname(f), "scanner's initial buffer is its own", c.pos(bc.Pos()),
+					"the initial buffer handed to Buffer is nil or allocated at this call: no two scanners share memory",
+					"the initial buffer handed to Buffer is not nil or freshly allocated here (a package variable, field or parameter): Scanner.Buffer does not copy, so readers that are alive at the same time overwrite each other's lines")
+			}
 			if len(bufCalls) == 0 {
 				r.violated("SC-BUF", fname(f), "scanner token limit", c.pos(call.Pos()), "the scanner keeps bufio's default 64 KiB token limit: a read longer than 65536 bytes fails with 'token too long'")
 				return
@@ -225,6 +241,7 @@ func rulesFastqLayout(c *Ctx, r *Report) {
 			fmt.Sprintf("a return behind a delivered first line can carry io.EOF (%v), which the iterator takes for a clean end of input: a record cut short is dropped silently", bad))
 	}
 	// views: for a value, which scan produced it (latest Scan dominating its Bytes() call)
+	var altered []string // what find() met on the way from a value to its line, other than copies and cuts
 	scanOf := func(v ssa.Value) int {
 		seen := map[ssa.Value]bool{}
 		var find func(v ssa.Value) *ssa.Call
@@ -238,13 +255,41 @@ func rulesFastqLayout(c *Ctx, r *Report) {
 				if methIs(x.Call.StaticCallee(), "bufio", "Scanner", "Bytes") || methIs(x.Call.StaticCallee(), "bufio", "Scanner", "Text") {
 					return x
 				}
+				// only copies keep the line what it is: slices.Clone / bytes.Clone / append(empty, line...) / string
+				// conversions; a module helper is followed (its result must be such a copy or cut of its parameter);
+				// anything else (Trim*, ToUpper, Replace …) makes the field something other than the line
+				g := x.Call.StaticCallee()
+				if b, isB := x.Call.Value.(*ssa.Builtin); isB && b.Name() == "append" && len(x.Call.Args) == 2 {
+					return find(x.Call.Args[1])
+				}
+				if g == nil {
+					return nil
+				}
+				switch qname(g) {
+				case "slices.Clone", "bytes.Clone", "strings.Clone":
+					return find(x.Call.Args[0])
+				}
+				if g.Blocks != nil && g.Pkg != nil && strings.HasPrefix(g.Pkg.Pkg.Path(), modPath) {
+					if !returnsCutOfParam(g) {
+						altered = append(altered, "passed through "+fname(g)+", which does more than copy or cut it")
+					}
+					for _, a := range x.Call.Args {
+						if r := find(a); r != nil {
+							return r
+						}
+					}
+					return nil
+				}
 				for _, a := range x.Call.Args {
 					if r := find(a); r != nil {
+						altered = append(altered, "passed through "+qname(g))
 						return r
 					}
 				}
 			case *ssa.Slice:
 				return find(x.X)
+			case *ssa.Extract:
+				return find(x.Tuple) // a result of a helper that was handed the line
 			case *ssa.Phi:
 				for _, e := range x.Edges {
 					if r := find(e); r != nil {
@@ -284,6 +329,16 @@ func rulesFastqLayout(c *Ctx, r *Report) {
 			}
 		}
 	}
+	// the fields are the lines themselves (copied, the name cut by its marker): nothing trims or rewrites them
+	altered = nil
+	for k := 0; k < 3; k++ {
+		if fieldVal[k] != nil {
+			scanOf(fieldVal[k])
+		}
+	}
+	r.check(len(altered) == 0, "F4L", where, "fields are the lines as read", c.pos(acc.Pos()),
+		"Name, Sequence and Quals are copies (or a cut) of the scanner's lines: nothing between the line and the field changes bytes",
+		"a record field is its line "+strings.Join(dedupe(altered), "; ")+": bytes the writer emits (blanks, tabs, …) do not come back")
 	okFields := rec != nil && fieldScan[0] == 1 && fieldScan[1] == 2 && fieldScan[2] == 4
 	r.check(okFields, "F4L", where, "record fields", c.pos(acc.Pos()), "Name, Sequence, Quals come from lines 1, 2 and 4", fmt.Sprintf("Name, Sequence, Quals come from lines %d, %d, %d (want 1, 2, 4)", fieldScan[0], fieldScan[1], fieldScan[2]))
 	// Name drops exactly the leading '@': name[1:]
@@ -293,71 +348,118 @@ func rulesFastqLayout(c *Ctx, r *Report) {
 			okName = true
 		}
 	}
+	if !okName && fieldVal[0] != nil {
+		// through a helper that returns line[1:] (nil beside its error): the value as the expression it computes
+		e := s.expr(fieldVal[0])
+		for e.Op == "ite" && len(e.Args) == 3 {
+			switch {
+			case e.Args[1].Op == "const" && e.Args[1].Leaf == "nil":
+				e = e.Args[2]
+			case e.Args[2].Op == "const" && e.Args[2].Leaf == "nil":
+				e = e.Args[1]
+			default:
+				e = &Sym{Op: "?"}
+			}
+		}
+		if e.Op == "slice" && len(e.Args) == 3 && e.Args[1].String() == "1" && e.Args[2].String() == "_" {
+			okName = true
+		}
+	}
 	r.check(okName, "F4L", where, "name without '@'", c.pos(acc.Pos()), "Name is line 1 without its first byte", "Name is not line 1 with exactly the leading '@' removed")
 	// REJECT guards
 	guards := map[string]bool{}
-	for b := acc.Block(); b != nil && b.Idom() != nil; b = b.Idom() {
-		d := b.Idom()
-		iff, ok := d.Instrs[len(d.Instrs)-1].(*ssa.If)
-		if !ok {
-			continue
-		}
-		onTrue := d.Succs[0].Dominates(acc.Block()) && !d.Succs[1].Dominates(acc.Block()) && len(d.Succs[0].Preds) == 1
-		onFalse := d.Succs[1].Dominates(acc.Block()) && !d.Succs[0].Dominates(acc.Block()) && len(d.Succs[1].Preds) == 1
-		if !onTrue && !onFalse {
-			continue
-		}
-		switch x := iff.Cond.(type) {
-		case *ssa.BinOp:
-			l, rr := s.expr(x.X), s.expr(x.Y)
-			// name[0] ? '@'
-			for _, pr := range [][2]*Sym{{l, rr}, {rr, l}} {
-				if pr[1].Op == "const" && pr[1].Leaf == "64" && pr[0].Op == "load" && pr[0].Args[0].Op == "index" && pr[0].Args[0].Args[1].String() == "0" {
-					if scanOf(pr[0].Args[0].Args[0].Val) == 1 && ((x.Op == token.NEQ && onFalse) || (x.Op == token.EQL && onTrue)) {
-						guards["at"] = true
+	var collectGuards func(accBlk *ssa.BasicBlock, s *symb, depth int)
+	collectGuards = func(accBlk *ssa.BasicBlock, s *symb, depth int) {
+		for b := accBlk; b != nil && b.Idom() != nil; b = b.Idom() {
+			d := b.Idom()
+			iff, ok := d.Instrs[len(d.Instrs)-1].(*ssa.If)
+			if !ok {
+				continue
+			}
+			onTrue := d.Succs[0].Dominates(accBlk) && !d.Succs[1].Dominates(accBlk) && len(d.Succs[0].Preds) == 1
+			onFalse := d.Succs[1].Dominates(accBlk) && !d.Succs[0].Dominates(accBlk) && len(d.Succs[1].Preds) == 1
+			if !onTrue && !onFalse {
+				continue
+			}
+			switch x := iff.Cond.(type) {
+			case *ssa.BinOp:
+				// behind `err == nil` of a validating helper of the package: the guards of the helper's own successful
+				// return count, its parameters standing for the arguments
+				if ev := errNonNilEdge(edgeLit{x, onFalse}); ev != nil && depth < 2 {
+					if ex, ok := ev.(*ssa.Extract); ok {
+						if cl, ok := ex.Tuple.(*ssa.Call); ok {
+							if h := cl.Call.StaticCallee(); h != nil && h.Blocks != nil && h.Pkg == accBlk.Parent().Pkg && len(h.Params) == len(cl.Call.Args) {
+								hs := newSymb(h)
+								for i, p := range h.Params {
+									hs.subst[p] = s.expr(cl.Call.Args[i])
+								}
+								var okRets []*ssa.Return
+								instrs(h, func(in ssa.Instruction) {
+									if rt, ok := in.(*ssa.Return); ok {
+										ops := retOperands(rt)
+										if len(ops) > 0 && isNilConst(ops[len(ops)-1]) {
+											okRets = append(okRets, rt)
+										}
+									}
+								})
+								if len(okRets) == 1 {
+									collectGuards(okRets[0].Block(), hs, depth+1)
+								}
+							}
+						}
 					}
 				}
-			}
-			// len(name) == 0 false edge
-			if l.Op == "builtin:len" && rr.Op == "const" && rr.Leaf == "0" && scanOf(l.Args[0].Val) == 1 {
-				if (x.Op == token.EQL && onFalse) || (x.Op == token.NEQ && onTrue) || (x.Op == token.GTR && onTrue) {
-					guards["nonempty"] = true
-				}
-			}
-			// the same two tests on line 3 with '+': the byte-level form of HasPrefix(line3, "+")
-			for _, pr := range [][2]*Sym{{l, rr}, {rr, l}} {
-				if pr[1].Op == "const" && pr[1].Leaf == "43" && pr[0].Op == "load" && pr[0].Args[0].Op == "index" && pr[0].Args[0].Args[1].String() == "0" {
-					if scanOf(pr[0].Args[0].Args[0].Val) == 3 && ((x.Op == token.NEQ && onFalse) || (x.Op == token.EQL && onTrue)) {
-						guards["plus0"] = true
+				l, rr := s.expr(x.X), s.expr(x.Y)
+				// name[0] ? '@'
+				for _, pr := range [][2]*Sym{{l, rr}, {rr, l}} {
+					if pr[1].Op == "const" && pr[1].Leaf == "64" && pr[0].Op == "load" && pr[0].Args[0].Op == "index" && pr[0].Args[0].Args[1].String() == "0" {
+						if scanOf(pr[0].Args[0].Args[0].Val) == 1 && ((x.Op == token.NEQ && onFalse) || (x.Op == token.EQL && onTrue)) {
+							guards["at"] = true
+						}
 					}
 				}
-			}
-			if l.Op == "builtin:len" && rr.Op == "const" && rr.Leaf == "0" && scanOf(l.Args[0].Val) == 3 {
-				if (x.Op == token.EQL && onFalse) || (x.Op == token.NEQ && onTrue) || (x.Op == token.GTR && onTrue) {
-					guards["plusNonEmpty"] = true
-				}
-			}
-			// len(quals) ? len(seq)
-			if l.Op == "builtin:len" && rr.Op == "builtin:len" {
-				a, b2 := scanOf(l.Args[0].Val), scanOf(rr.Args[0].Val)
-				if (a == 4 && b2 == 2 || a == 2 && b2 == 4) && ((x.Op == token.NEQ && onFalse) || (x.Op == token.EQL && onTrue)) {
-					guards["lengths"] = true
-				}
-			}
-		case *ssa.UnOp:
-			if x.Op == token.NOT {
-				if cl, ok := x.X.(*ssa.Call); ok && fnIs(cl.Call.StaticCallee(), "bytes", "HasPrefix") && onFalse {
-					if scanOf(cl.Call.Args[0]) == 3 && isPlusLiteral(cl.Call.Args[1]) {
-						guards["plus"] = true
+				// len(name) == 0 false edge
+				if l.Op == "builtin:len" && rr.Op == "const" && rr.Leaf == "0" && scanOf(l.Args[0].Val) == 1 {
+					if (x.Op == token.EQL && onFalse) || (x.Op == token.NEQ && onTrue) || (x.Op == token.GTR && onTrue) {
+						guards["nonempty"] = true
 					}
 				}
-			}
-		case *ssa.Call:
-			if fnIs(x.Call.StaticCallee(), "bytes", "HasPrefix") && onTrue && scanOf(x.Call.Args[0]) == 3 && isPlusLiteral(x.Call.Args[1]) {
-				guards["plus"] = true
+				// the same two tests on line 3 with '+': the byte-level form of HasPrefix(line3, "+")
+				for _, pr := range [][2]*Sym{{l, rr}, {rr, l}} {
+					if pr[1].Op == "const" && pr[1].Leaf == "43" && pr[0].Op == "load" && pr[0].Args[0].Op == "index" && pr[0].Args[0].Args[1].String() == "0" {
+						if scanOf(pr[0].Args[0].Args[0].Val) == 3 && ((x.Op == token.NEQ && onFalse) || (x.Op == token.EQL && onTrue)) {
+							guards["plus0"] = true
+						}
+					}
+				}
+				if l.Op == "builtin:len" && rr.Op == "const" && rr.Leaf == "0" && scanOf(l.Args[0].Val) == 3 {
+					if (x.Op == token.EQL && onFalse) || (x.Op == token.NEQ && onTrue) || (x.Op == token.GTR && onTrue) {
+						guards["plusNonEmpty"] = true
+					}
+				}
+				// len(quals) ? len(seq)
+				if l.Op == "builtin:len" && rr.Op == "builtin:len" {
+					a, b2 := scanOf(l.Args[0].Val), scanOf(rr.Args[0].Val)
+					if (a == 4 && b2 == 2 || a == 2 && b2 == 4) && ((x.Op == token.NEQ && onFalse) || (x.Op == token.EQL && onTrue)) {
+						guards["lengths"] = true
+					}
+				}
+			case *ssa.UnOp:
+				if x.Op == token.NOT {
+					if cl, ok := x.X.(*ssa.Call); ok && fnIs(cl.Call.StaticCallee(), "bytes", "HasPrefix") && onFalse {
+						if scanOf(cl.Call.Args[0]) == 3 && isPlusLiteral(cl.Call.Args[1]) {
+							guards["plus"] = true
+						}
+					}
+				}
+			case *ssa.Call:
+				if fnIs(x.Call.StaticCallee(), "bytes", "HasPrefix") && onTrue && scanOf(x.Call.Args[0]) == 3 && isPlusLiteral(x.Call.Args[1]) {
+					guards["plus"] = true
+				}
 			}
 		}
 	}
+	collectGuards(acc.Block(), s, 0)
 	r.check(guards["at"] && guards["nonempty"], "REJECT", where, "leading '@'", c.pos(acc.Pos()), "the accepting return lies behind len(line1) > 0 and line1[0] == '@'", "a record whose first line is empty or does not start with '@' can reach the accepting return")
 	if guards["plus0"] && guards["plusNonEmpty"] {
 		guards["plus"] = true
@@ -594,4 +696,66 @@ func mayBeEOF(c *Ctx, v ssa.Value, seen map[ssa.Value]bool, depth int) bool {
 		return found
 	}
 	return false
+}
+
+// returnsCutOfParam: every slice/string result the function returns is one of its parameters, copied or cut
+// (Slice, Clone, append onto an empty slice), or nil.
+func returnsCutOfParam(g *ssa.Function) bool {
+	isParam := map[ssa.Value]bool{}
+	for _, p := range g.Params {
+		isParam[p] = true
+	}
+	var pure func(v ssa.Value, depth int) bool
+	pure = func(v ssa.Value, depth int) bool {
+		if depth > 6 {
+			return false
+		}
+		if isParam[v] || isNilConst(v) {
+			return true
+		}
+		switch x := v.(type) {
+		case *ssa.Slice:
+			return pure(x.X, depth+1)
+		case *ssa.Phi:
+			for _, e := range x.Edges {
+				if e != v && !pure(e, depth+1) {
+					return false
+				}
+			}
+			return true
+		case *ssa.Convert:
+			return pure(x.X, depth+1)
+		case *ssa.Call:
+			if b, ok := x.Call.Value.(*ssa.Builtin); ok && b.Name() == "append" && len(x.Call.Args) == 2 {
+				return pure(x.Call.Args[1], depth+1)
+			}
+			if h := x.Call.StaticCallee(); h != nil {
+				switch qname(h) {
+				case "slices.Clone", "bytes.Clone", "strings.Clone":
+					return pure(x.Call.Args[0], depth+1)
+				}
+			}
+		}
+		return false
+	}
+	ok := true
+	instrs(g, func(in ssa.Instruction) {
+		rt, isRt := in.(*ssa.Return)
+		if !isRt {
+			return
+		}
+		for _, op := range retOperands(rt) {
+			switch op.Type().Underlying().(type) {
+			case *types.Slice:
+				if !pure(op, 0) {
+					ok = false
+				}
+			case *types.Basic:
+				if isStringType(op.Type()) && !pure(op, 0) {
+					ok = false
+				}
+			}
+		}
+	})
+	return ok
 }
